@@ -440,10 +440,21 @@ func (w *world) putKnown(k key) {
 			}
 		}
 		if mustLocked {
-			if w.shadowed(tk) && !errors.Is(err, apistatus.ErrObjectLocked) {
-				w.fail("(1) TOMBSTONE %s for %s accepted/mis-rejected (%s) although a live lock exists next to a force-marked one [%s]", s, tk, errClass(err), fpMultiLock)
+			sysTarget := false
+			if tm := w.objs[tk]; tm != nil && tm.hasSpec && tm.spec.Kind != uni.Regular {
+				// a locked ID that turned out to be a system object: the type check may
+				// reject first ("target is another TS" / lock removal) – any rejection is fine
+				sysTarget = true
 			}
-			if !errors.Is(err, apistatus.ErrObjectLocked) {
+			switch {
+			case sysTarget:
+				if err == nil {
+					w.fail("(1) TOMBSTONE %s for live-locked system object %s was accepted", s, tk)
+				}
+			case errors.Is(err, apistatus.ErrObjectLocked):
+			case w.shadowed(tk):
+				w.fail("(1) TOMBSTONE %s for %s accepted/mis-rejected (%s) although a live lock exists next to a force-marked one [%s]", s, tk, errClass(err), fpMultiLock)
+			default:
 				w.fail("(1) TOMBSTONE %s for live-locked %s: want ObjectLocked, got %s", s, tk, errClass(err))
 			}
 			exp := ^uint64(0)
